@@ -69,6 +69,7 @@ class Ctx:
         self.infeasible = False
         self.in_quant = 0
         self.fact_log = None
+        self.spec_side = 0
         self.assumed_safety = []  # (regex on "<function>::<obligation name>", reason): declared pre-conditions
         self.lift_vars = []
         self.guards = []  # hypotheses under which obligations are currently emitted (symbolic comprehension bodies)
@@ -285,6 +286,10 @@ class Ctx:
 
     def require(self, name, goal, kind="safe", note="", assume_form=None):
         """obligation that is *assumed* afterwards (like assert): later code may rely on it"""
+        if self.spec_side and kind == "safe":
+            # index / division side conditions of terms built by a CONTRACT (specification side) are not
+            # obligations about the code
+            return None
         import re as _re
         fn = self.fn_stack[-1] if self.fn_stack else ""
         for pat, why in self.assumed_safety:
